@@ -40,7 +40,7 @@ pub fn map_oracle(v: &mut Visit) -> Vec<(String, String)> {
     }
     // an operation that is refused (adding empty content) leaves the map as it was
     for id in ids.iter() {
-        if v.live.add(*id, Vec::new()).is_ok() {
+        if v.live.add(*id, Vec::with_capacity(if id % 2 == 0 { 0 } else { 16 })).is_ok() {
             bad.push(("refused-add-accepted".to_string(), format!("add_tile({id}, <empty>) succeeded")));
             continue;
         }
